@@ -28,6 +28,7 @@ PROPS = {}
 
 
 def _p(pid, level="exploration", quick=60, thorough=1200, rule=SESSION_RULE, assume=None, **kw):
+    kw.setdefault("quick_runs", 32000)
     PROPS[pid] = dict(level=level, quick_s=quick, thorough_s=thorough, rule=rule, assumptions=COMMON_ASSUME + (assume or []), **kw)
 
 
@@ -43,28 +44,28 @@ LEVEL_NOTE = ("trusted: Go runtime + testing/synctest fake clock, the instrument
               "the network/HTTP layer is a model of net/http's handler contract")
 NOT_CLAIMED = {}
 
-_p("C01", assume=["liveness is judged only in fault-free runs whose session stayed open and whose client kept reading; sends issued in the last 300 ms are exempt"])
+_p("C01", quick_runs=24000, assume=["liveness is judged only in fault-free runs whose session stayed open and whose client kept reading; sends issued in the last 300 ms are exempt"])
 _p("C02", assume=["only well-formed payloads built by the reference encoders are submitted (hostile bytes belong to C09)"])
-_p("C06")
+_p("C06", quick_runs=24000)
 _p("C07", assume=["exact virtual-time equality; at exact ties (pong processed at the deadline instant) both outcomes are accepted", "upgrade completion between a ping and its deadline is excluded, as the property says"])
 _p("C08", assume=["outcome-based: never guesses server-internal ordering"])
 _p("C11", assume=["two requests overlap at the server when the second handler started before the first was answered"])
 _p("C12", assume=["bounded time = max(30 s close timeout, pingInterval+pingTimeout) + 1 s"])
-_p("C16", assume=["a coding listed with q=0 is counted in the evidence, not flagged (weakest reading of 'names')"])
-_p("C17", assume=["preflight requests are exercised by the C05 admission scenarios"])
+_p("C16", quick_runs=24000, assume=["a coding listed with q=0 is counted in the evidence, not flagged (weakest reading of 'names')"])
+_p("C17", quick_runs=24000, assume=["preflight requests are exercised by the C05 admission scenarios"])
 _p("C18", assume=["a deadlock is a task waiting for a lock or Once it already holds, reported by simrt with its stack"])
 
 TIMER_RULE = ("scenario i = GenTimers(splitmix64(VERIF_SEED,i)): 1-5 timers (timeout/interval, period 1-50 ms), 2-6 tasks issuing "
               "create/refresh/stop/clear at instants on a grid around the due instants (before, exactly at, after; concurrent duplicates), callbacks that take virtual time or cancel their own timer, "
               "statement-level pre-emption inside utils/timer.go; distinct by schedule+history hash")
-_p("C19", quick=40, thorough=900, rule=TIMER_RULE, quick_runs=40000,
+_p("C19", quick=40, thorough=900, rule=TIMER_RULE, quick_runs=96000,
    real=["utils/timer.go (instrumented)", "Go runtime timers and channels"], stubs=["the clock (testing/synctest)"],
    assume=["refresh after a cancellation is outside the statement and not judged", "a call at exactly the due instant may go either way unless the cancellation had already returned (event order)"])
 CONT_RULE = ("scenario i = GenCont(splitmix64(VERIF_SEED,i)): one of {map, slice, set} concurrent histories (2-8 tasks, <=3 keys, unique values, <=28 ops) "
              "checked with porcupine against sequential models; emitter concurrent histories with an interval-order oracle; Yeast/GenerateId from "
              "several tasks inside one virtual millisecond and, with the stalled-task fault, across millisecond boundaries; single-task contract sequences (aliasing, invalid indices, nil listeners, listeners removing listeners during an emit) - the last kind has "
              "no schedule in it and is seeded model-based generation, claimed as such")
-_p("C20", quick=40, thorough=900, rule=CONT_RULE, quick_runs=40000,
+_p("C20", quick=40, thorough=900, rule=CONT_RULE, quick_runs=96000,
    real=["types/map.go, types/slice.go, types/set.go, types/events.go, utils/yeast.go, utils/base64id.go (instrumented)"], stubs=["none"],
    assume=["porcupine 'Unknown' (timeout) is counted as inconclusive, never reported", "listeners are distinct function literals (the emitter identifies functions by code pointer)"])
 
@@ -74,10 +75,10 @@ WT_RULE = ("scenario i = GenWT(property, splitmix64(VERIF_SEED,i)): two webtrans
            "C15: valid corpora truncated at offset (i mod len) and faulted at read offset (i mod len) - consecutive runs enumerate every offset - plus mutated, random and 64-bit-length streams, read limits, partial consumption")
 WT_REAL = ["webtransport/conn.go, webtransport/prepared.go (instrumented)", "webtransport-go Session (real, created by webtransport.Server.Upgrade over http3/quic interface fakes)"]
 WT_STUBS = ["the QUIC stream under the Conn (in-memory stream with fragmentation and fault injection)", "quic-go connection, HTTP/3 framing"]
-_p("C13", quick=40, thorough=900, rule=WT_RULE, quick_runs=24000, real=WT_REAL, stubs=WT_STUBS)
-_p("C14", quick=40, thorough=900, rule=WT_RULE, quick_runs=24000, real=WT_REAL, stubs=WT_STUBS,
+_p("C13", quick=40, thorough=900, rule=WT_RULE, quick_runs=64000, real=WT_REAL, stubs=WT_STUBS)
+_p("C14", quick=40, thorough=900, rule=WT_RULE, quick_runs=64000, real=WT_REAL, stubs=WT_STUBS,
    assume=["the encoder half is a pure function of (kind, payload, path, buffer size): decided by observation at the simulated wire; the simulator adds the fragmentation dimension on the decoder side"])
-_p("C15", level="fault_enumeration", quick=40, thorough=900, rule=WT_RULE, quick_runs=32000, real=WT_REAL, stubs=WT_STUBS,
+_p("C15", level="fault_enumeration", quick=40, thorough=900, rule=WT_RULE, quick_runs=64000, real=WT_REAL, stubs=WT_STUBS,
    level_text=("fault_enumeration for the truncation/stream-error clause: for each generated valid corpus the stream is cut / faulted at offset (run index mod length), so a batch of "
                "consecutive run indices covers every byte offset; the remaining clauses (arbitrary bytes, limits, partial consumption) are seeded exploration"),
    assume=["the documented 1000-reads panic guard is never provoked (at most 10 reads after the first error)", "a 64-bit length with the top bit set must be rejected; any other length is legal"])
@@ -86,7 +87,7 @@ ADM_RULE = ("scenario i = GenAdmission(splitmix64(VERIF_SEED,i)): attach-option 
             "allowEIO3, allow-request hook, failing middleware, CORS; 0-2 canary sessions (one possibly upgrading, one closing); a raw client issues 4-30 requests from the grammar "
             "(path variants, method, transport/EIO/j/b64/garbage parameters, sid unknown/closed/other-transport, Origin bytes incl. control characters, plain vs WebSocket upgrade), "
             "each compared with a reference of path matching and check precedence")
-_p("C05", quick=60, thorough=1200, rule=ADM_RULE, quick_runs=12000,
+_p("C05", quick=60, thorough=1200, rule=ADM_RULE, quick_runs=32000,
    assume=["the decision itself is a function of (options, request, registry): the simulator contributes the registry/upgrade states and the non-interference clause; the pure part is a seeded input sweep, claimed as such",
            "prefix matching applies when the mount path ends in a slash, exact matching otherwise (weakest reading)",
            "requests racing with the opening/closing of the session they name are not judged"])
@@ -95,12 +96,12 @@ HOSTILE_RULE = ("scenario i = GenHostile(splitmix64(VERIF_SEED,i)): 1-2 canary s
                 "polling sessions with mutated / truncated / inflated payloads of both revisions (string, binary and JSONP forms, every packet type, invalid UTF-8 and base64), "
                 "overlapping and aborted requests, upgrade candidates whose EIO differs from the handshake, WebSocket sessions fed raw frames (reserved opcodes, fragmented control frames, huge lengths), "
                 "WebTransport sessions with hostile handshake packets; the engine.io-go-parser dependency is vendored and instrumented so that its decode loops are pre-emptible and counted")
-_p("C09", quick=90, thorough=1800, rule=HOSTILE_RULE, quick_runs=12000,
+_p("C09", quick=90, thorough=1800, rule=HOSTILE_RULE, quick_runs=24000,
    real=REAL_DEFAULT + ["engine.io-go-parser (vendored next to the scratch copy and statement-instrumented like the repository)"],
    assume=["grammar-based seeded mutation inside the simulator replaces coverage-guided byte fuzzing (stated in DESIGN.md)",
            "work out of proportion = more than 3,000,000 yield points or the hand-off limit in one run whose clients send a few kilobytes; a wall-clock watchdog (30 s) backs it up for loops without yield points",
            "a panic in any goroutine counts (net/http would recover one in a handler goroutine, the property's wording does not)"])
 LIMIT_RULE = ("scenario i = GenLimits(splitmix64(VERIF_SEED,i)): maxHttpBufferSize in {1,10,100,1000,100000}; a raw client posts bodies of limit-1, limit, limit+1, limit+2, 2*limit, +100 KB, +1 MiB "
               "with declared or unknown Content-Length, single or multi-packet, revision 3 or 4, or sends WebSocket frames (also fragmented) / WebTransport frames of those sizes, next to canary sessions")
-_p("C10", quick=60, thorough=1200, rule=LIMIT_RULE, quick_runs=12000,
+_p("C10", quick=60, thorough=1200, rule=LIMIT_RULE, quick_runs=32000,
    assume=["'a constant number of bytes' is read as 64 KiB"])
